@@ -12,8 +12,11 @@ def check(c):
         servelib.model(c, "VaryPreserved", [])
         c.negative_twin("CorsMC", servelib.CORS_CFG % dict(bug="f5", pairs="TRUE", invs="VarySufficient"),
                         tag="CorsMC_neg_f5", expect=["VarySufficient"], timeout=600)
-    n = 6 if thorough else 1
-    shards = [["-mode", "universe", "-configs", "12" if thorough else "9"] + (["-big"] if thorough else []) for _ in range(n)]
+    # the configurations of one seed are dealt to 4 shards (validated concurrently); thorough: 4 seeds x 4 shards
+    shards = []
+    for k in range(4 if thorough else 1):
+        for i in range(4):
+            shards.append(["-mode", "universe", "-configs", "12" if thorough else "9", "-shard", str(i), "-nshards", "4"] + (["-big"] if thorough else []))
     tot = servelib.run_serve(c, "C10", shards, "two requests agreeing on the Vary-listed headers were treated differently, or a pre-set Vary value was lost")
     if tot["a"] == 0:
         raise Infra("vacuous C10 run: %r" % tot)
